@@ -128,7 +128,6 @@ package scipipe
 //@ extern errors.New(text) (res)
 //@   ensures nonnil: res != nil
 //@ iface error.Error() (res)
-//@ iface error.Error() (res)
 //@ extern os.Exit(code)
 //@   requires nonzero: code != 0
 //@   noreturn
